@@ -104,5 +104,5 @@ def discipline_obligations(rep):
     rep.add_checked('yp_generator.template.T4.called_names_are_compiler_literals', not bad, '; '.join(bad), 'ast',
                     function='yp_generator.YPPrologCompiler', witness=bad or None)
     q = rep.tier == 'quick'
-    fw.standin(rep, 's_tmpl.py', ['run', rep.seed, 400 if q else 6000],
+    fw.standin(rep, 's_tmpl.py', ['run', rep.seed, 1200 if q else 8000],
                'template discipline of the emitted text of compiled programs (AST of the output)', 'F1-F4 programs')
